@@ -276,6 +276,34 @@ def check_base(ctx: Ctx) -> None:
         a = [s_ for s_ in stmts_of(f) if isinstance(s_, ast.Assign) and dotted(s_.targets[0]) == f"{gname}.{attr}"]
         ok = len(a) == 1 and isinstance(a[0].value, ast.Call) and dotted(a[0].value.func) in ("copy", "dict", "deepcopy")
         ctx.ob("15.6-copy-owns-required", con, ok, f"the copy must own its {attr} mapping", node=(a or [f])[0], stmt=f"{attr} copied")
+    # the elements themselves: each back-end's _copy gives the copy a container of its own
+    for rel_, cn_ in ((SG, "SimpleGrammar"), (JG, "JSONGrammar"), (PG, "PydanticGrammar")):
+        sub = ctx.index.cls(rel_, cn_)
+        cp_ = sub.methods.get("_copy")
+        ctx.need(cp_ is not None, f"{cn_}._copy not found")
+        other = cp_.args.args[1].arg
+        mod_ = ctx.index.module(rel_)
+        annotations = {st.target.id: norm_stmt(st.annotation) for st in sub.node.body if isinstance(st, ast.AnnAssign) and isinstance(st.target, ast.Name)}
+        for st in stmts_of(cp_):
+            if not (isinstance(st, ast.Assign) and isinstance(st.targets[0], ast.Attribute) and dotted(st.targets[0].value) == other):
+                continue
+            attr = st.targets[0].attr
+            bare = attr.replace(f"_{cn_}", "") if attr.startswith(f"_{cn_}__") else attr
+            v_ = st.value
+            src_self = any(isinstance(n_, ast.Attribute) and dotted(n_.value) == "self" and n_.attr in (attr, bare, mangle(cn_, bare)) for n_ in ast.walk(v_))
+            if not src_self:
+                continue
+            ann = annotations.get(bare, annotations.get(attr, ""))
+            alias = norm_stmt(mod_.assigns[ann]) if ann in mod_.assigns else ann
+            is_class_valued = alias.startswith(("type[", "Type["))
+            copies = isinstance(v_, ast.Call) and (dotted(v_.func) in ("copy", "deepcopy", "dict", "list") or (isinstance(v_.func, ast.Attribute) and v_.func.attr == "copy"))
+            fresh_class = isinstance(v_, ast.Call) and dotted(v_.func) == "create_model"
+            if isinstance(v_, (ast.Name, ast.Constant)) or (isinstance(v_, ast.Attribute) and attr.endswith("needs_rebuild")):
+                continue  # flags and scalars
+            ok_ = fresh_class if is_class_valued else (copies or fresh_class)
+            why = "copy()/deepcopy() of a CLASS return the class itself: the copy and the original then edit the same `model_fields`" if is_class_valued else "the container of the elements is shared with the original"
+            ctx.ob("15.6-copy-owns-elements", cname(rel_, cn_, "_copy"), ok_, f"the copy gets `{norm_stmt(v_, 50)}` as its {bare}: {why}, so deleting / renaming / updating an element of the copy changes the original grammar", node=st, stmt=f"{bare} of the copy is its own")
+    ctx.floor("15.6-copy-owns-elements", 3)
     # __delitem__
     f = cls.methods["__delitem__"]
     con = cname(BG, "BaseGrammar", "__delitem__")
